@@ -69,7 +69,9 @@ def run(module, cfg_text, *, workdir=None, workers=None, timeout=1800, simulate=
             spec_file = os.path.join(SPEC, module + ".tla")
         if workers is None:
             workers = os.cpu_count() or 4
-        cmd = ["java", "-XX:+UseParallelGC", "-Xss16m", "-DTLA-Library=" + SPEC + os.pathsep + wd]
+        cmd = ["java", "-XX:+UseParallelGC", "-DTLA-Library=" + SPEC + os.pathsep + wd]
+        if not any(o.startswith("-Xss") for o in java_opts):
+            cmd += ["-Xss16m"]
         if not any(o.startswith("-Xmx") for o in java_opts):
             cmd += ["-Xmx%dm" % (8192 if workers >= 12 else 3072), "-XX:ParallelGCThreads=%d" % max(2, min(workers, 8))]
         cmd += list(java_opts)
